@@ -235,6 +235,7 @@ fn rec_configs(seed: u64, tier: &str) -> Vec<RecCfg> {
             bad_kind: rng.range(1, 5),
             stop_after: None,
             init: rng.chance(1, 2),
+                generic: false,
             reader_init_fails: false,
             rset_fail_at: None,
             rec_fail_at: None,
@@ -266,6 +267,8 @@ fn rec_configs(seed: u64, tier: &str) -> Vec<RecCfg> {
             6 => c.io_fail_at = Some(rng.range(0, 6)),
             _ => {}
         }
+        // a third of the runs without initialisers go through the generic `parallel_records`
+        c.generic = !c.init && c.seed % 3 == 0;
         v.push(c);
     }
     v
